@@ -120,6 +120,21 @@ claim("C03",
       "TLA+ specification with closed form in exact fixed-point arithmetic on a rational-trigonometry lattice enumerated by TLC, TLC trace validation",
       "DESIGN.md section 4 C03")
 
+claim("C20",
+      "Api.tla models the HTTP API as the pipeline Receive -> Parse -> ConvIn -> LibCall -> ConvOut -> Respond (+ Index) with "
+      "S-tables for field->argument wiring, angle-type->conversion (absent = dd), result->key; TLC checks the model exhaustively "
+      "(14 580 requests x 6 stages, every action taken) and enumerates request classes: 2 endpoints x {dd, dms, absent}^2 x input "
+      "classes (hemisphere, side, geometry / azimuth and distance bands) x query syntax. The driver sends each request through "
+      "Flask's test client with a recording wrapper on api.app.vincinv/vincdir and calls the library directly; Trace_Api (TLC) "
+      "decides on every real request, bit for bit (float.hex): the recorded library call = ConvIn(parse(query)) in the table's "
+      "order, response = ConvOut(what the library returns directly), status 200, keys, HP conversions against exact BigFix HP "
+      "arithmetic at 1e-8\", and the index route lists every endpoint.",
+      "Decides API == library (wiring, independent from/to conversion, defaults, pass-through, status, keys, index), not the "
+      "library's geodesic accuracy (C04/C05). LibCall.* clauses depend on a recording wrapper and are skipped when no positional "
+      "call is recorded; Respond.* clauses are purely observable. JSON 0 vs 0.0 not distinguished.",
+      "TLA+ pipeline state machine checked exhaustively by TLC, TLC-enumerated requests sent to the real Flask app, TLC trace validation bit for bit",
+      "DESIGN.md section 4 C20")
+
 NOT_YET = "check not built yet in this session (work in progress; see DESIGN.md section 8 for build order)"
 
 
